@@ -9,13 +9,23 @@ MANIFEST = dict(
     text="Coq theorems (coq/Props/C02.v) about the reader+kernel model: wf_fs preserved by every operation (C02_wf_preserved); "
          "walk_dirs lists exactly the directories below a path (C02_walk_dirs); construction covers every directory (recursive) / "
          "only the root (non-recursive) (C02_construct_cover, C02_flat_watches); from a synchronised state one operation + a full "
-         "read re-establishes the cover invariant for touch/write/chmod/unlink, mkdir, rmdir, file renames (inside/in/out/replacing) "
-         "and a directory rename inside the tree incl. all sub-directories via the re-key loop and C14 (C02_cover_step, "
-         "C02_rekey_loop); by induction over histories of ANY length in which every operation is followed by a full read "
-         "(C02_cover_sequential_partial, C02_cover_from_start_partial); the probe law (C02_probe) and the non-recursive law "
-         "(C02_flat); the pinned code is refuted (C02_pinned_movein_refuted, C02_pinned_mkdir_rename_refuted). Stated, not proved "
-         "in general (C02_step_full): directory moved in (checked by vm_compute examples), moved out (known finding F10), directory "
-         "over empty directory, non-recursive/outside directory renames; bursts are carried by the sampled correspondence. "
+         "read re-establishes the cover invariant for touch/write/chmod/unlink, mkdir, rmdir, file renames (inside/in/out/replacing), "
+         "directory renames inside the tree incl. all sub-directories via the re-key loop and C14, a directory moved in, a directory "
+         "over an empty directory, non-recursive/outside directory renames (C02_cover_step, C02_rekey_loop). REPAIRED READER "
+         "(c_fix_moveout, F10 family fixed): a directory moved OUT leaves a pending candidate (C02_step_rename_dir_out, "
+         "C02_out_pending); the next operation's first record settles it - the departed sub-tree's bookkeeping is forgotten and its "
+         "kernel watches removed - and the state is synchronised again up to the removed watches' IN_IGNORED records "
+         "(C02_pending_step, C02_step_junk, C02_record_produced); by induction over histories of ANY length that contain "
+         "directory move-outs followed by any covered operation (re-creating the old name, moving the directory back in, renaming "
+         "a former ancestor - the F10b/F10d histories are instances, C02_f10_ops_x_nonvacuous), every operation followed by a full "
+         "read, from construct() and on the Pipeline model (C02_cover_sequential_partial, C02_cover_from_start_partial, "
+         "C02_cover_sequential_pipeline_partial); the probe law (C02_probe) and the non-recursive law (C02_flat); the pinned code is "
+         "refuted (C02_pinned_movein_refuted, C02_pinned_mkdir_rename_refuted, and with c_fix_moveout := false C02_f10d_pinned_refuted, "
+         "C02_f10b_pinned_stale). Extra hypotheses of the move-out theorems: full event mask; the operation right after a directory "
+         "move-out is a covered operation in a directory of the tree (so it produces a record) that notifies no directory at or "
+         "below the departed directory's new place (in particular not a second move-out). Stated, not proved in general "
+         "(C02_step_full): those excluded successors, a directory moved in over an empty directory, operations on the root, bursts and read cuts (carried by the sampled "
+         "correspondence). "
          "Pipeline model in lock-step against the real observer on the real kernel (see C01); after every history a probe "
          "file is created in EVERY directory of the final tree and must be reported under its real path (recursive) / only "
          "in the root (non-recursive); theorems in coq/Props/C02.v over the model.",
